@@ -585,6 +585,18 @@ class Run:
             return r
 
         Workload.get_schedulable_tasks = offer
+        # every pop of the simulator's event queue (C16): the popped event must be minimal in (time, type priority)
+        # among everything that is queued at that moment
+        self._orig["qnext"] = simmod.EventQueue.next
+
+        def qnext(q):
+            ev = run._orig["qnext"](q)
+            key = (us(ev.time), ev.event_type.value)
+            worse = [(us(x.time), x.event_type.value) for x in q._event_queue if (us(x.time), x.event_type.value) < key]
+            run.mon.append({"ev": "pop", "time": key[0], "type": ev.event_type.name, "prio": key[1], "earlier_left": sorted(worse)[:3]})
+            return ev
+
+        simmod.EventQueue.next = qnext
         Task.start, Task.finish, Task.release = start, finish, release
         for nm in ("release", "schedule", "unschedule", "start", "finish", "cancel", "preempt"):
             wrap_transition(nm)
@@ -597,6 +609,7 @@ class Run:
         from workload import Workload
 
         Workload.get_schedulable_tasks = self._orig["offer"]
+        simmod.EventQueue.next = self._orig["qnext"]
         for nm in ("schedule", "unschedule", "cancel", "preempt"):
             setattr(Task, nm, self._orig["tr_" + nm])
         Task.start, Task.finish, Task.release = self._orig["start"], self._orig["finish"], self._orig["release"]
